@@ -43,6 +43,22 @@ theorem cache_slot_holds_only_what_was_put_under_its_key (hash : Key → Nat)
       ∃ e ∈ sys.trace, e.2.1 = .put k v ∨ e.2.1 = .putD k v :=
   ((SafeInv.init cap walOn progs).run rfl sched).slots
 
+/-- the same on the machine `drv_kv` runs for a tree WITHOUT the yield point inside `CacheRing::get`
+    (`runSchedRFused`, command `runrf`: both lock sections of `get` in one scheduler step - what
+    `corr_kv` compares the real store with today): every hash function, every interleaving of the
+    yield hooks, stopped anywhere -/
+theorem cache_get_returns_only_a_value_written_to_that_key_at_hook_granularity (hash : Key → Nat)
+    (pick : List (Option (Key × Val)) → Nat) (cap : Nat) (walOn : Bool)
+    (progs : List ThreadProgram) (sched : List Nat) :
+    let sys := runSchedRFused { hash := hash, pick := pick, keyCheck := true } cap walOn progs sched
+    ∀ r ∈ sys.hist, ∀ k v, r.op = .get k → k.cls = .cache → r.res = .found v →
+      ∃ e ∈ sys.trace.take r.ret, e.2.1 = .put k v ∨ e.2.1 = .putD k v :=
+  ((SafeInv.init cap walOn progs).runFused rfl sched).gets
+
+example :
+    (runSchedRFused (cfgOf hashConst true) 4 false ringCollisionProgs [0, 0, 0, 0]).hist.map (·.res) =
+      [.ok, .ok, .notFound, .found ⟨2, .none⟩] := by decide
+
 /-- non-vacuity, (a) the interleaving: the reader's index lookup finds slot 0; `_cache:1` is deleted
     and `_cache:2` put into the slot that has just become empty; the reader's slot read compares
     the keys and reports NotFound.  The trace shows the get parked between its two lock sections. -/
